@@ -86,7 +86,7 @@ def st_selspec():
     """selection described relative to the program's address schema (resolved by resolve_sel)"""
     return st.fixed_dictionaries({
         "picks": st.lists(st.integers(0, 60), min_size=0, max_size=3),
-        "mode": st.sampled_from(["full", "full", "prefix", "wild", "full-not", "prefix-not", "random"]),
+        "mode": st.sampled_from(["full", "full", "prefix", "wild", "full-not", "prefix-not", "random", "and", "and-not"]),
         "term": st_selterm(),
     })
 
@@ -111,6 +111,13 @@ def resolve_sel(node, spec):
             a = ["..."] + a[1:]
         atoms.append(["at", a])
     term = ["none"]
+    if spec["mode"].startswith("and") and atoms:
+        # intersection of a prefix selection with a wildcard-rooted one that addresses the same leaves
+        full = atoms[0][1]
+        term = ["and", ["at", ["..."] + full[1:]], ["at", full[:1]]] if len(full) >= 2 else ["and", ["at", full], ["at", ["..."]]]
+        for at in atoms[1:]:
+            term = ["or", term, at]
+        atoms = []
     for at in atoms:
         term = at if term == ["none"] else ["or", term, at]
     if spec["mode"].endswith("-not"):
